@@ -41,10 +41,10 @@ def _one(args):
                              env={"TRACE_FILE": str(path)}, heap="2g")
 
 
-def validate(ctx: Ctx, trace_files: Sequence[Path]) -> None:
+def validate(ctx: Ctx, trace_files: Sequence[Path], label: str = "recorded runs") -> None:
     files = [Path(f).with_suffix(".policy") for f in trace_files]
     files = [f for f in files if f.exists() and f.stat().st_size > 0]
-    cov = ctx.coverage.setdefault("control", {})
+    cov = ctx.coverage.setdefault("control", {}).setdefault(label, {})
     if not files:
         cov["policy_steps_checked"] = 0
         return
@@ -70,7 +70,7 @@ def validate(ctx: Ctx, trace_files: Sequence[Path]) -> None:
     cov["policy_steps_checked"] = steps
     cov["distinct_decisions_observed"] = sorted("/".join(x) for x in seen)
     cov["policy_divergences"] = ndiv
-    ctx.log(f"HiveControl: {steps} recorded steps, {len(seen)} distinct (driver, activity, decision) cases, {ndiv} divergences")
+    ctx.log(f"HiveControl ({label}): {steps} steps, {len(seen)} distinct (driver, activity, decision) cases, {ndiv} divergences")
 
 
 def _line(path: Path, n: int) -> Dict[str, Any]:
